@@ -41,6 +41,8 @@ def main():
     os.makedirs(lib.WORK, exist_ok=True)
     plug = importlib.import_module("props." + prop)
     ctx = Ctx(prop, a.tier, seed)
+    # replay inputs of the listed known findings always run first, so that each finding is re-established on every run
+    ctx.known_replays = [k["replay"] for k in lib.load_known(prop) if k.get("kind") == "known" and k.get("replay")]
 
     if a.replay:
         rep = json.load(open(a.replay))
